@@ -21,7 +21,7 @@ and after every cancel / withdraw, also those that follow an auto-fill):
                             (`auctions.go:561-566` deletes the record and leaves `BidValue` as it was)
   bidvalue_custody          the module account covers less than Σ records + retained fees (beyond what it held at the start) and the
                             cover got worse on this line …
-  deposits_drained_by_esm_trigger  … unless the DIFF-free model says `TriggerEsm` paid out on this line (auctions.go:160-173, D35)
+  deposits_drained_by_esm_trigger  … unless the DIFF-free model says `TriggerEsm` paid out on this line (auctions.go:160-173, D39)
   deposits_drained_after_esm_trigger … or the line CLOSES an auction whose proceeds `TriggerEsm` had partly sent away (same finding)
   limit_own_deposit         an accepted withdraw exceeds the caller's own record / an accepted cancel or withdraw finds no record
   limit_payout              an accepted deposit / cancel / withdraw moved anything but `amount` resp. `amount − fee` of the caller
@@ -132,7 +132,7 @@ def finish (st : St) (seq : String) (m' : JSt) (mOk : Bool) (outcome : String) (
   -- custody against the records, on REAL values
   let feesR := st.feesR + feeNow
   let cover := (balOf o "auction").2 - st.base0 - sumDeps bk - feesR
-  -- the cause the DIFF-free model names gets its own monitor name: `TriggerEsm` paid the auction's proceeds out again (D35)
+  -- the cause the DIFF-free model names gets its own monitor name: `TriggerEsm` paid the auction's proceeds out again (D39)
   let esmPaid := decide (m'.d.esmOut > st.s.d.esmOut)
   let mCov := if cover < 0 ∧ cover < st.cover then
       (if diffFree ∧ esmPaid then [s!"MON\t{seq}\tdeposits_drained_by_esm_trigger"]
